@@ -897,6 +897,10 @@ class CallMixin:  # pylint:disable=too-many-public-methods
         vc = self.class_of(v)
         for c in cands:
             if not isinstance(c, ClassVal):
+                if isinstance(c, ExtVal) and isinstance(v, Opaque):
+                    if self.fork(("isinstance", v.oid, c.name), f"isinstance({v.label},{c.name})"):
+                        return True
+                    continue
                 if isinstance(c, ExtVal):
                     # an external class we do not model: only decidable for repo/builtin values (then False)
                     if vc is not None and not isinstance(v, Opaque):
